@@ -1396,6 +1396,123 @@ Section Oracle.
       repeat split; try assumption; try congruence; try lia.
   Qed.
 
+
+  (* an LZMA2Writer between two calls *)
+  Definition l2ok (p : lzp) (org : Z) (s : l2st PS) : Prop :=
+    l2inv p org s /\ phi p (l2_e _ s) /\ loop2_cond (l2_e _ s) = true /\ unc_size (l2_e _ s) <= UNC_BOUND p.
+
+  Lemma enc0_einv_gen p org tr : wf_p p ->
+    sum_fill tr = org -> sum_sym tr + sum_abs tr = org -> sum_chunk tr = org -> einv p org enc0 tr.
+  Proof.
+    intros [W1 W2 W3 W4 W5 W6 W7 W8 W9 W10] H1 H2 H3. unfold REQ_FINISH in *.
+    constructor; unfold enc0, pidx, logical_pos, Kp; cbn; try lia; try (left; reflexivity).
+    constructor; cbn; lia.
+  Qed.
+
+  (* after a completed drain the writer is back in the steady phase *)
+  Lemma drained_phi p e : wf_p p -> finishing (e_lz e) = false ->
+    read_limit (e_lz e) = write_pos (e_lz e) - 1 -> pidx e = write_pos (e_lz e) -> read_ahead e = -1 -> phi p e.
+  Proof.
+    intros [W1 W2 W3 W4 W5 W6 W7 W8 W9 W10] Hf Hrl Hp Hra.
+    constructor; unfold steady, quiet; try assumption; try lia; try (intros _; exact Hra).
+  Qed.
+
+  Lemma l2_flush_spec p org s : wf_p p -> l2_hist_ok p -> l2ok p org s ->
+    okor (l2_flush PS parse chunkc s) (fun r =>
+      l2ok p org (fst r) /\ snd r = RDone /\ l2_pending _ (fst r) = 0 /\ l2_chunk _ (fst r) = l2_chunk _ s /\
+      sum_fill (l2_tr _ (fst r)) = sum_fill (l2_tr _ s)).
+  Proof.
+    intros W HH (L & F & J1 & J2). pose proof L as [Lp Ln I Lpend Lunc Lbig Lcnn].
+    unfold l2_flush. rewrite Lp.
+    eapply okor_bind; [apply (set_flushing_spec p _ (l2_tr _ s) W (ei_lz _ _ _ _ I))|].
+    intros [d1 tr1]. cbn [fst snd]. intros (L1 & R1 & Wp1 & Rl1 & Fin1 & Acc & Pcase).
+    assert (I1 : einv p org (with_lz (l2_e _ s) d1) tr1) by (apply (set_limit_einv p org _ (l2_tr _ s)); assumption).
+    injection Acc as E1 E2 E3 E4.
+    assert (L' : l2inv p org (l2_with_lz PS s (d1, tr1))).
+    { constructor; unfold l2_with_lz; cbn [l2_p l2_new l2_e l2_tr l2_pending l2_unc fst snd]; try assumption; try lia. }
+    eapply okor_bind.
+    { apply (l2_drain_spec p org W HH (drain_fuel PS s) _ L').
+      - exact J2.
+      - exact J1.
+      - unfold l2_with_lz, with_lz. cbn [l2_e e_lz fst]. lia.
+      - unfold drain_fuel, l2_with_lz. cbn [l2_pending].
+        pose proof (l2_pending_cap p org s L). pose proof (ei_lz _ _ _ _ I) as [[? ?] ? ? ? ?]. pose proof (ei_ra _ _ _ _ I).
+        pose proof (ei_unc _ _ _ _ I). unfold pidx in *. lia. }
+    intros s1 (L2 & P2 & C2 & Un2 & Rc2 & Ra2 & Pi2 & Wp2 & Rl2 & Fin2 & G2 & F2).
+    unfold l2_with_lz, with_lz in *. cbn [l2_e e_lz fst snd l2_tr l2_chunk] in *. cbn [okor fst snd].
+    split.
+    { split; [exact L2|]. split.
+      - apply (drained_phi p _ W); try assumption; try lia. rewrite Fin2, Fin1. exact (ph_fin _ _ F).
+      - split; [unfold loop2_cond; rewrite Un2, Rc2; reflexivity|].
+        rewrite Un2. unfold UNC_BOUND, SYM_MAX, LZMA2_UNCOMPRESSED_LIMIT. pose proof (wf_ea p W). lia. }
+    split; [reflexivity|]. split; [exact P2|]. split; [exact C2|]. lia.
+  Qed.
+
+  Lemma l2_finish_spec p org s : wf_p p -> l2_hist_ok p -> l2ok p org s ->
+    okor (l2_finish PS parse chunkc s) (fun r =>
+      snd r = RDone /\ sum_fill (l2_tr _ (fst r)) = sum_fill (l2_tr _ s) /\
+      sum_chunk (l2_tr _ (fst r)) = sum_fill (l2_tr _ (fst r)) /\
+      sum_sym (l2_tr _ (fst r)) + sum_abs (l2_tr _ (fst r)) = sum_fill (l2_tr _ (fst r))).
+  Proof.
+    intros W HH (L & F & J1 & J2). pose proof L as [Lp Ln I Lpend Lunc Lbig Lcnn].
+    unfold l2_finish. rewrite Lp.
+    eapply okor_bind; [apply (set_finishing_spec p _ (l2_tr _ s) W (ei_lz _ _ _ _ I))|].
+    intros [d1 tr1]. cbn [fst snd]. intros (L1 & R1 & Wp1 & Rl1 & Fin1 & Acc & Pcase).
+    assert (I1 : einv p org (with_lz (l2_e _ s) d1) tr1) by (apply (set_limit_einv p org _ (l2_tr _ s)); assumption).
+    injection Acc as E1 E2 E3 E4.
+    assert (L' : l2inv p org (l2_with_lz PS s (d1, tr1))).
+    { constructor; unfold l2_with_lz; cbn [l2_p l2_new l2_e l2_tr l2_pending l2_unc fst snd]; try assumption; try lia. }
+    eapply okor_bind.
+    { apply (l2_drain_spec p org W HH (drain_fuel PS s) _ L').
+      - exact J2.
+      - exact J1.
+      - unfold l2_with_lz, with_lz. cbn [l2_e e_lz fst]. lia.
+      - unfold drain_fuel, l2_with_lz. cbn [l2_pending].
+        pose proof (l2_pending_cap p org s L). pose proof (ei_lz _ _ _ _ I) as [[? ?] ? ? ? ?]. pose proof (ei_ra _ _ _ _ I).
+        pose proof (ei_unc _ _ _ _ I). unfold pidx in *. lia. }
+    intros s1 (L2 & P2 & C2 & Un2 & Rc2 & Ra2 & Pi2 & Wp2 & Rl2 & Fin2 & G2 & F2).
+    unfold l2_with_lz, with_lz in *. cbn [l2_e e_lz fst snd l2_tr l2_chunk] in *. cbn [okor fst snd l2_tr sum_fill sum_chunk sum_sym sum_abs].
+    pose proof L2 as [_ _ I2 Lpend2 _ _ _].
+    pose proof (ei_fill _ _ _ _ I2). pose proof (ei_sym _ _ _ _ I2). rewrite logical_pidx in *.
+    split; [reflexivity|]. split; [lia|]. split; lia.
+  Qed.
+
+  Lemma l2_start_independent_spec p org s : wf_p p -> l2_hist_ok p -> l2ok p org s ->
+    okor (l2_start_independent PS parse chunkc s) (fun s1 =>
+      l2ok p (sum_fill (l2_tr _ s1)) s1 /\ l2_e _ s1 = enc0 /\ l2_chunk _ s1 = l2_chunk _ s /\
+      sum_fill (l2_tr _ s1) = sum_fill (l2_tr _ s)).
+  Proof.
+    intros W HH (L & F & J1 & J2). pose proof L as [Lp Ln I Lpend Lunc Lbig Lcnn].
+    unfold l2_start_independent. rewrite Lp.
+    eapply okor_bind; [apply (set_flushing_spec p _ (l2_tr _ s) W (ei_lz _ _ _ _ I))|].
+    intros [d1 tr1]. cbn [fst snd]. intros (L1 & R1 & Wp1 & Rl1 & Fin1 & Acc & Pcase).
+    assert (I1 : einv p org (with_lz (l2_e _ s) d1) tr1) by (apply (set_limit_einv p org _ (l2_tr _ s)); assumption).
+    injection Acc as E1 E2 E3 E4.
+    assert (L' : l2inv p org (l2_with_lz PS s (d1, tr1))).
+    { constructor; unfold l2_with_lz; cbn [l2_p l2_new l2_e l2_tr l2_pending l2_unc fst snd]; try assumption; try lia. }
+    eapply okor_bind.
+    { apply (l2_drain_spec p org W HH (drain_fuel PS s) _ L').
+      - exact J2.
+      - exact J1.
+      - unfold l2_with_lz, with_lz. cbn [l2_e e_lz fst]. lia.
+      - unfold drain_fuel, l2_with_lz. cbn [l2_pending].
+        pose proof (l2_pending_cap p org s L). pose proof (ei_lz _ _ _ _ I) as [[? ?] ? ? ? ?]. pose proof (ei_ra _ _ _ _ I).
+        pose proof (ei_unc _ _ _ _ I). unfold pidx in *. lia. }
+    intros s1 (L2 & P2 & C2 & Un2 & Rc2 & Ra2 & Pi2 & Wp2 & Rl2 & Fin2 & G2 & F2).
+    unfold l2_with_lz, with_lz in *. cbn [l2_e e_lz fst snd l2_tr l2_chunk] in *.
+    pose proof L2 as [Lp2 Ln2 I2 Lpend2 Lunc2 Lbig2 Lcnn2].
+    rewrite Ln2. cbn [obind okor fst snd l2_tr l2_e l2_chunk sum_fill].
+    pose proof (ei_fill _ _ _ _ I2). pose proof (ei_sym _ _ _ _ I2). rewrite logical_pidx in *.
+    assert (Hsc : sum_chunk (l2_tr _ s1) = sum_fill (l2_tr _ s1)) by lia.
+    split.
+    { split.
+      - constructor; cbn [l2_p l2_new l2_e l2_tr l2_pending l2_unc sum_fill sum_chunk]; try assumption; try reflexivity; try lia.
+        apply enc0_einv_gen; cbn [sum_fill sum_sym sum_abs sum_chunk]; try assumption; lia.
+      - cbn [l2_e]. destruct (enc0_einv p W) as (_ & F0 & _). split; [exact F0|]. split; [reflexivity|].
+        unfold enc0; cbn [unc_size]. unfold UNC_BOUND, SYM_MAX, LZMA2_UNCOMPRESSED_LIMIT. pose proof (wf_ea p W). lia. }
+    split; [reflexivity|]. split; [exact C2|]. lia.
+  Qed.
+
 End Oracle.
 
 (* =============================================================================================
